@@ -466,6 +466,10 @@ class Executor:
         reg = self.check_access(st, p, n, 'load')
         if reg is None:
             return self.fresh_garbage(ty)
+        pend = st.extra.get('pending_init')
+        if pend and reg.kind == 'global' and reg.name in pend:
+            # a namespace-scope object read before its own dynamic initialiser has run (static-initialisation order)
+            st.ub.append(('read of a namespace-scope object before its dynamic initialisation', reg.name))
         want = self.tt(ty)
         c = reg.cells.get(p.off)
         if c is not None and c[0] == n:
